@@ -831,3 +831,34 @@ def v11_provider_results_not_written(ctx) -> None:
             ctx.ok("V11", f"{m.qualname} starts from a copy of the parent's terms")
     if n < 2:
         ctx.floor("V11", 99)
+
+
+def v5b_univariate_genf_refuses_statistics(ctx) -> None:
+    """A generating function written in the size variable only (x ** k) is the generating
+    function of the class only when the class tracks no statistic: AtomStrategy.get_genf must
+    refuse (NotImplementedError) a class with extra parameters before it returns one, and
+    every get_genf refuses a class that is not verified."""
+    P = ctx.P
+    n = 0
+    for cname in ("AtomStrategy", "VerificationStrategy", "EmptyStrategy"):
+        m = P.need_method(cname, "get_genf", own=True)
+        f = m.node
+        ctx.analysed(m)
+        cc = [p for p in D.param_names(f) if p != "self"][0]
+        rets = [r for r in C.returns_of(f) if r.value is not None]
+        for r in rets:
+            gs = {(norm(t), pol) for t, pol in C.flatten_guards(C.guards(f, r))}
+            n += 1
+            if (f"self.verified({cc})", True) in gs:
+                ctx.ok("V5", f"{cname}.get_genf answers only for a verified class")
+            else:
+                ctx.violation("V5", r, f"{cname}.get_genf returns a generating function without `self.verified({cc})` having been tested (StrategyDoesNotApply otherwise)")
+            univariate = any(isinstance(x, ast.Call) and norm(x.func) in ("var", "sympy.var", "Symbol", "sympy.Symbol") for x in ast.walk(D.expanded(f, r.value)))
+            if univariate:
+                if (f"{cc}.extra_parameters", False) in gs:
+                    ctx.ok("V5", f"{cname}.get_genf: the one-variable answer is given only for a class without statistics")
+                else:
+                    ctx.violation("V5", r, f"{cname}.get_genf returns a function of the size variable alone for a class that may track statistics: `{cc}.extra_parameters` "
+                                  "must be refused with NotImplementedError first (the equations of a specification with statistics would silently lose them)")
+    if n < 3:
+        ctx.floor("V5", 99)
